@@ -481,6 +481,46 @@ func RunC06(d *Driver) *Report {
 		}
 		check("expressions", src+prattUses, i)
 	}
+	// the same expressions in random layouts (c01prattw.go: a space added or removed at every token boundary
+	// where that is lexically possible — `(a)and(b)`, `a- -b`, `x [0]`) after `x :=`, as arguments and as
+	// array elements and map values: what is accepted must come out with the same tokens and be read back as the same tree
+	for i := 0; i < 2*nexpr; i++ {
+		ty := []string{"num", "bool", "str", "bool"}[rng.Intn(4)]
+		toks, ok := prattLexW(prattGen(rng, ty, 1+rng.Intn(5)))
+		if !ok || len(toks) == 0 {
+			continue
+		}
+		text := prattTextW(prattRelayout(rng, toks))
+		switch rng.Intn(4) {
+		case 0:
+			check("relayout", prattPrelude+"x := "+text+"\n"+prattUses, i)
+		case 1:
+			check("relayout", prattPrelude+"x := 0\nprint "+text+"\n"+prattUses, i)
+		case 2:
+			check("relayout", prattPrelude+"x := ["+text+"]\n"+prattUses, i)
+		default:
+			check("relayout", prattPrelude+"x := {k:"+text+"}\n"+prattUses, i)
+		}
+	}
+	// every binary operator written without spaces between bracketed (and plain) operands in the four kinds of position
+	{
+		k := 0
+		for _, oc := range [][3]string{{"+", "n1", "n2"}, {"-", "n1", "n2"}, {"*", "n1", "n2"}, {"/", "n1", "n2"}, {"%", "n1", "n2"}, {"<", "n1", "n2"}, {">", "n1", "n2"},
+			{"<=", "n1", "n2"}, {">=", "n1", "n2"}, {"==", "n1", "n2"}, {"!=", "s1", "s1"}, {"and", "b1", "b1"}, {"or", "b1", "b1"}, {"+", "s1", "s1"}, {"+", "arr", "arr"}} {
+			op, a, b := oc[0], oc[1], oc[2]
+			forms := []string{"(" + a + ")" + op + "(" + b + ")", "(" + a + ")" + op + "(" + b + ")" + op + "(" + a + ")"}
+			if op != "and" && op != "or" {
+				forms = append(forms, a+op+b, a+op+"("+b+")")
+			}
+			for _, e := range forms {
+				for _, src := range []string{"x := " + e + "\n", "x := 0\nprint " + e + " " + e + "\n", "x := [" + e + " " + e + "]\n", "x := {k:" + e + " j:" + e + "}\n",
+					"func fq:any v:any w:any\n    return v\nend\nx := (fq " + e + " " + e + ")\n"} {
+					check("tight-operators", prattPrelude+src+prattUses, k)
+					k++
+				}
+			}
+		}
+	}
 	for i, b := range bases {
 		check("base", b, i)
 		f, ok, _ := fmtOf(b)
@@ -654,10 +694,51 @@ func RunC07(d *Driver) *Report {
 			}
 		}
 	}
+	// several files in one `evy fmt --check` call, and the text on stdin: the exit status is zero exactly when
+	// EVERY input is in formatted form, whatever the order of the files
+	if berr == nil {
+		good, bad := "x := 1\nprint x\n", "x  :=  1\n\n\nprint   x\n"
+		gp, bp, g2 := filepath.Join(dir, "good.evy"), filepath.Join(dir, "bad.evy"), filepath.Join(dir, "good2.evy")
+		os.WriteFile(gp, []byte(good), 0o644)                //nolint
+		os.WriteFile(bp, []byte(bad), 0o644)                 //nolint
+		os.WriteFile(g2, []byte("print 2\n// end\n"), 0o644) //nolint
+		for _, tc := range []struct {
+			files []string
+			ok    bool
+		}{{[]string{gp}, true}, {[]string{bp}, false}, {[]string{gp, g2}, true}, {[]string{gp, bp}, false}, {[]string{bp, gp}, false}, {[]string{bp, gp, g2}, false},
+			{[]string{gp, bp, g2}, false}, {[]string{gp, g2, bp}, false}, {[]string{bp, bp}, false}, {[]string{g2, gp, g2}, true}} {
+			nbin++
+			pr := runProc(20*time.Second, "", bin, append([]string{"fmt", "--check"}, tc.files...)...)
+			var names []string
+			for _, f := range tc.files {
+				names = append(names, filepath.Base(f))
+			}
+			r.Count("fmt-check-multi:"+strings.Join(names, " "), true)
+			if (pr.Exit == 0) != tc.ok {
+				r.Violation(Case{Stream: "fmt-check-multi", Input: "evy fmt --check " + strings.Join(names, " ") + "\n--- good.evy\n" + good + "--- bad.evy\n" + bad, Real: fmt.Sprintf("exit=%d %s", pr.Exit, trunc(pr.Stderr+pr.Stdout, 200)),
+					Spec: fmt.Sprintf("exit status zero = %v: `evy fmt --check` accepts exactly input that is already formatted, for every file given", tc.ok)})
+			}
+			// nothing is modified
+			if b, _ := os.ReadFile(bp); string(b) != bad {
+				r.Violation(Case{Stream: "fmt-check-multi", Input: "evy fmt --check " + strings.Join(names, " "), Real: "bad.evy was rewritten", Spec: "--check modifies nothing"})
+				os.WriteFile(bp, []byte(bad), 0o644) //nolint
+			}
+		}
+		for _, tc := range []struct {
+			in string
+			ok bool
+		}{{good, true}, {bad, false}} {
+			nbin++
+			pr := runProc(20*time.Second, tc.in, bin, "fmt", "--check")
+			if (pr.Exit == 0) != tc.ok {
+				r.Violation(Case{Stream: "fmt-check-multi", Input: "evy fmt --check < stdin\n" + tc.in, Real: fmt.Sprintf("exit=%d %s", pr.Exit, trunc(pr.Stderr+pr.Stdout, 200)), Spec: fmt.Sprintf("exit status zero = %v", tc.ok)})
+			}
+		}
+	}
 	if berr != nil {
 		r.Disagree(Case{Stream: "build", Input: "go build", Real: berr.Error()})
 	}
-	r.Rule = fmt.Sprintf("%d accepted texts (the corpus of C06: documentation examples, playground samples, hand-written programs with comments and blank-line runs around func/on of every length pattern, generated programs; their whitespace and comment variants): Format(Format(p)) = Format(p); the layout rules (four spaces per block level incl. multi-line literals, no trailing whitespace, at most one consecutive blank line, exactly one final newline, no leading blank line); every whitespace variant formats to the same text as its original; `evy fmt --check` (rebuilt binary, %d files) exits 0 on the formatter's output and 1 on a trailing blank line, trailing spaces, CRLF line ends and a leading space. Non-trivial = distinct text", nprog, nbin)
+	r.Rule = fmt.Sprintf("%d accepted texts (the corpus of C06: documentation examples, playground samples, hand-written programs with comments and blank-line runs around func/on of every length pattern, generated programs; their whitespace and comment variants): Format(Format(p)) = Format(p); the layout rules (four spaces per block level incl. multi-line literals, no trailing whitespace, at most one consecutive blank line, exactly one final newline, no leading blank line); every whitespace variant formats to the same text as its original; `evy fmt --check` (rebuilt binary, %d files) exits 0 on the formatter's output and 1 on a trailing blank line, trailing spaces, CRLF line ends and a leading space; with several files (formatted and unformatted ones in every order) and with stdin it exits 0 exactly when every input is formatted, and modifies nothing. Non-trivial = distinct text", nprog, nbin)
 	r.DriverCalls = 0
 	return r
 }
